@@ -1,5 +1,6 @@
 import SqlgrepModel.CodecStmt
 import SqlgrepModel.Model.Pipeline
+import SqlgrepModel.Spec.Pipeline
 import SqlgrepModel.Drivers.Lex
 import SqlgrepModel.Drivers.ParseStmt
 import SqlgrepModel.Drivers.Extract
@@ -17,6 +18,8 @@ import SqlgrepModel.Drivers.Print
 answer (the same string `harness/src/e2e.rs` builds from the real run):
   `rejected defs|query perr L C KIND` | `rejected defs|query cerr L C KIND` | `not-create-table` | `not-a-query`
   | `ok total=N out=xLINE,…` | `err:KIND total=N out=xLINE,…` | `panic` | `skip WHAT`
+  For the text format with SINGLE = 0 the answer of the end-to-end specification travels along where it answers:
+  `MODEL ## SPEC ## CLASS` (`Spec/Pipeline.lean` `specText`; CLASS names the known deviation class or `e2e-spec-mismatch`).
   | `glue-mismatch …` when the text rendering of `Model/Exec.lean` and the printer model of `Model/Print.lean`
     disagree on the run (a self-check of the conversion `printCalls`; never equal to an implementation answer). -/
 namespace Sqlgrep.Drivers.Pipeline
@@ -78,6 +81,11 @@ def showAnswer : Answer → String
   | .panic _ => "panic"
   | .skip w => "skip " ++ w
 
+def showRunOut (ro : RunOut) : String :=
+  (match ro.error with
+    | some k => "err:" ++ k.name
+    | none => "ok") ++ " total=" ++ toString ro.totalLines ++ " out=" ++ showLines (ro.printed.map strBytes)
+
 /-- self-check of the glue between the engine's own text rendering and the printer model: for the text format and
 `single_result = false` the lines of `Print.printAll` over the recorded calls must be `RunOut.printed` -/
 def textConsistent (F : Facts) (defsText queryText : List Char) (files : List (List Nat)) : Bool :=
@@ -103,7 +111,13 @@ def handle (args : List Sexp) : String :=
           factsOf cls nums rx lines f64 oracles reals fs with
     | some defs, some query, some fmt, some single, some files, some F =>
       let a := showAnswer (runText F defs query fmt (single != 0) files)
-      if fmt == .text && !textConsistent F defs query files then "glue-mismatch text rendering: " ++ a else a
+      if fmt == .text && !textConsistent F defs query files then "glue-mismatch text rendering: " ++ a
+      else if fmt == .text && single == 0 then
+        -- three-way comparison: the statement-level specifications on the extracted rows (`Spec/Pipeline.lean`)
+        match Spec.Pipeline.specText F defs query files with
+        | some (ro, cls) => a ++ " ## " ++ showRunOut ro ++ " ## " ++ (if cls.isEmpty then "e2e-spec-mismatch" else cls)
+        | none => a
+      else a
     | none, _, _, _, _, _ => "bad-defs"
     | _, none, _, _, _, _ => "bad-query"
     | _, _, none, _, _, _ => "bad-format"
